@@ -70,7 +70,7 @@ def strategy(draw, tier="quick"):
             ops.append({"op": kind, "b": b, "e": draw(_spec())})
         else:
             ops.append({"op": kind, "b": b, "k": draw(st.integers(0, 30)), "never": draw(st.integers(0, 3)) == 0})
-    return {"nb": nb, "ops": ops}
+    return {"nb": nb, "ops": ops, "pre": draw(st.integers(0, 2))}  # buckets created (and dropped again) before the case's own: row ids differ from store to store
 
 
 def _content(spec):
@@ -107,7 +107,14 @@ class _Run:
         with stores.store(be) as ds:
             names = [f"bucket{i}" for i in range(case["nb"])]
             with sut(f"{be}: create_bucket"):
+                if case.get("pre", 0) == 1:
+                    stores.create_bucket(ds, "earlier")
+                if case.get("pre", 0) == 2:  # other names in another order: a bucket id stands for another row than in the store before
+                    names = ["bucket1", "bucketX"][: len(names)]
                 bs = [stores.create_bucket(ds, n) for n in names]
+                if case.get("pre", 0) == 1:  # the first bucket is dropped and created again before the history starts
+                    ds.delete_bucket(names[0])
+                    bs[0] = stores.create_bucket(ds, names[0])
             model = [dict() for _ in names]  # id -> content tuple
             self.uid = [dict() for _ in names]  # id -> creation order (same on every backend)
             self.nuid = 0
